@@ -276,3 +276,86 @@ def run_c08(prop, tier):
     write_evidence(prop, tier, "model_checking", cov, time.time() - t0, violations=len(verdict["violations"]),
                    assumptions=["column values instantiated from an integer universe per column type"])
     return verdict
+
+
+# ------------------------------------------------------------------ C13
+ISO_FILES = ["Iso.tla", "MC_Iso.tla", "TraceIso.tla"]
+ISO_CFG = 'SPECIFICATION Spec\nCONSTANTS Variant = "%s"\n WritePaths <- MCWritePaths\n ReadPaths <- MCReadPaths\nINVARIANT Isolated\nCHECK_DEADLOCK FALSE\n'
+
+
+def iso_key(ev):
+    return {k: ev.get(k, "") for k in ("ev", "t", "family", "write", "read", "field", "mutation", "shape")}
+
+
+def _iso_run(vh, cases):
+    with Scratch("iso") as sc:
+        with open(sc.path("cases.ndjson"), "w") as f:
+            for c in cases:
+                f.write(json.dumps(c) + "\n")
+        rc, o, e = run([vh, "iso-cases", "-cases", sc.path("cases.ndjson"), "-ovs-schema", os.path.join(VERIF, "schemas", "iso.ovsschema"),
+                        "-o", sc.path("trace.ndjson")], timeout=1800)
+        if rc != 0:
+            raise Broken("vh iso-cases failed: " + e[-3000:])
+        trace = [json.loads(l) for l in open(sc.path("trace.ndjson")) if l.strip()]
+        # binding self-test: one event claiming the cached row changed must be rejected
+        bad = json.loads(json.dumps(next(x for x in trace if x["ev"] == "iso")))
+        bad["unchanged"] = False
+        with open(sc.path("trace.ndjson"), "a") as f:
+            f.write(json.dumps(bad) + "\n")
+        copy_spec(sc.dir, ISO_FILES)
+        open(sc.path("T.cfg"), "w").write("SPECIFICATION Spec\nCHECK_DEADLOCK FALSE\n")
+        rc, out, wall = run_tlc(sc.dir, "TraceIso.tla", cfg="T.cfg", workers=1, timeout=1800)
+        if rc != 0 or not tlc_prints(out, "TRACE-COMPLETE"):
+            raise Broken("TraceIso validation did not complete:\n" + out[-3000:])
+        mm = tlc_prints(out, "MISMATCH")
+        if not any(m["line"] == len(trace) + 1 for m in mm):
+            raise Broken("TraceIso accepted a deliberately corrupted event")
+        mm = [m for m in mm if m["line"] <= len(trace)]
+        gen, dist = tlc_stats(out)
+        return {"events": len(trace), "states": dist, "transitions": gen, "trace": trace,
+                "cases": [{"mismatch": m, "key": iso_key(trace[m["line"] - 1])} for m in mm]}
+
+
+def iso_confirm(vh):
+    def confirm(case):
+        k = case["key"]
+        c = {"t": k["t"], "family": k["family"], "write": k["write"], "read": k["read"], "field": k["field"], "mutation": k["mutation"], "shape": k.get("shape", "")}
+        if k["ev"] == "law":
+            c["t"] = "law"
+        r = _iso_run(vh, [c, {"t": "in", "family": "runtime", "write": "create", "read": "", "field": "scalar", "mutation": "overwrite"}])
+        got = [x["mismatch"] for x in r["cases"] if x["key"] == k and x["mismatch"]["what"] == case["mismatch"]["what"]]
+        return got, None
+    return confirm
+
+
+def run_c13(prop, tier):
+    import common
+    t0 = time.time()
+    vh = build_vh()
+    with Scratch("mciso") as sc:
+        copy_spec(sc.dir, ISO_FILES)
+        open(sc.path("MC.cfg"), "w").write(ISO_CFG % "copy")
+        rc, out, wall = run_tlc(sc.dir, "MC_Iso.tla", cfg="MC.cfg", workers=4, timeout=900)
+        if "Model checking completed. No error has been found." not in out:
+            raise Broken("MC_Iso: the intended design violates isolation or TLC failed:\n" + out[-3000:])
+        gen, dist = tlc_stats(out)
+        cases = tlc_prints(out, "CASE")
+        for v in ("aliasIn", "aliasOut"):
+            open(sc.path("MCv.cfg"), "w").write(ISO_CFG % v)
+            rc, o2, w2 = run_tlc(sc.dir, "MC_Iso.tla", cfg="MCv.cfg", workers=4, timeout=900)
+            if "Invariant Isolated is violated" not in o2:
+                raise Broken("MC_Iso: variant %s is not refuted" % v)
+    res = _iso_run(vh, cases)
+    verdict = findings.adjudicate(prop, res["cases"], iso_confirm(vh))
+    cov = {"states": dist + res["states"], "transitions": gen + res["transitions"], "traces_validated_against_impl": 1,
+           "cases_enumerated": len(cases), "cases_executed": res["events"], "exhaustive": True,
+           "generated_family_from_repo_generator": common.GENMODEL_FROM_REPO,
+           "variants_refuted": ["aliasIn", "aliasOut"],
+           "samples": [res["trace"][0], res["trace"][-1]], "known_findings_seen": verdict["known"],
+           "rule": "TLC checks the heap model (Iso.tla) and enumerates (family x write path x mutation of the handed-in model), (family x read path x "
+                   "field x mutation of the returned model) and Clone/Equal law cases for run-time structs, a hand-written struct (JSON clone) and a "
+                   "generated struct (own deep copy); each is executed on the real RowCache/TableCache, a synchronised client (Get, List, Where, WhereAll, "
+                   "WhereCache) and event handlers, and a fresh read is compared with what was written"}
+    write_evidence(prop, tier, "model_checking", cov, time.time() - t0, violations=len(verdict["violations"]),
+                   assumptions=["RowsShallow is exempt as documented", "the generated family is generated by /repo's modelgen at check time"])
+    return verdict
